@@ -112,6 +112,8 @@ class TypeEnv(object):
             return smt.Str
         if desc.startswith('Seq['):
             return z3.SeqSort(self.sort_of(desc[4:-1]))
+        if desc.startswith('Tup['):
+            return self.tuple_info(desc)[0]
         if desc in self.families:
             return self.families[desc].sort
         if desc in self.records:
@@ -120,6 +122,17 @@ class TypeEnv(object):
                 raise Unsupported('datatype for %s not built yet (dependency order)' % desc)
             return r.sort
         raise Unsupported('unknown type descriptor %r' % desc)
+
+    def tuple_info(self, desc):
+        """'Tup[a,b,..]' -> (sort, ctor, accessors, component descriptors); flat components only"""
+        cache = self.__dict__.setdefault('_tuples', {})
+        if desc not in cache:
+            comps = [c.strip() for c in desc[4:-1].split(',')]
+            dt = z3.Datatype('Tup_' + '_'.join(c.replace('.', '_').replace('[', '_').replace(']', '_') for c in comps))
+            dt.declare('mk', *[('c%d' % i, self.sort_of(c)) for i, c in enumerate(comps)])
+            sort = dt.create()
+            cache[desc] = (sort, sort.constructor(0), [sort.accessor(0, i) for i in range(len(comps))], comps)
+        return cache[desc]
 
     def record_of_class(self, cls):
         for r in self.records.values():
